@@ -37,8 +37,12 @@ def rand_records(rng):
         lambda: rec(t, 12, ttl(), 0, target=None),                                              # root-name target
         lambda: rec(t, 12, ttl(), 0, target="noDot"),
         lambda: rec("x" + t, 33, ttl(), fl(), target=rng.choice(HOSTS), port=1),
+        # a type that has another type as a suffix, with its PTR, and an instance of it
+        lambda: rec(BROWSE, 12, ttl(), 0, target="x." + t),
+        lambda: rec("x." + t, 12, ttl(), 0, target="foo.x." + t),
+        lambda: rec("foo.x." + t, 33, ttl(), fl(), target=rng.choice(HOSTS), port=7),
     ]
-    w = [6, 6, 5, 2, 2, 1, 1, 1, 1]
+    w = [6, 6, 5, 2, 2, 1, 1, 1, 1, 1, 1, 1]
     return [rng.choices(opts, w)[0]() for _ in range(rng.choice([1, 1, 2, 3, 3, 5]))]
 
 
@@ -59,9 +63,9 @@ def gen_script(rng, nops):
         ncache = 1
     nb = rng.choice([1, 1, 2, 3])
     for j in range(nb):
-        ty = rng.choice(TYPES + [BROWSE]) if rng.random() < 0.9 else "_z._udp.local."
+        ty = rng.choice(TYPES + [BROWSE]) if rng.random() < 0.9 else rng.choice(["_z._udp.local.", "", "x." + TYPES[0]])
         c = "c0" if (shared and rng.random() < 0.8) else "-"
-        lines.append("NEW %d browser %s %s" % (j, hexs(ty), c))
+        lines.append("NEW %d browser %s %s" % (j, hexs(ty) or ".", c))
     now = 0
     marks = []
     for _ in range(nops):
@@ -91,7 +95,7 @@ def gen_script(rng, nops):
             # a browser created later: on the shared cache it meets the records its predecessors stored (its creation
             # question must list the unexpired PTR records already held for its type); or on a cache of its own
             ty = rng.choice(TYPES + [BROWSE])
-            lines.append("NEW %d browser %s %s" % (nb, hexs(ty), "c0" if (shared and rng.random() < 0.8) else "-"))
+            lines.append("NEW %d browser %s %s" % (nb, hexs(ty) or ".", "c0" if (shared and rng.random() < 0.8) else "-"))
             nb += 1
         elif shared:
             lines.append("CLOOKUP c0 - 255")
